@@ -195,3 +195,215 @@ def specialize(units, unit_name, roots):
     out = dict(units)
     out[unit_name] = view
     return out
+
+
+# ---- inlining of private single-exit helpers ------------------------------------------------------------------------
+
+def _side_effect_free(e):
+    for x in walk(e):
+        k = x.get('k')
+        if k == 'call' or (k == 'bin' and x.get('op') in ASSIGN_OPS) or \
+                (k == 'un' and x.get('op') in ('pre++', 'pre--', 'post++', 'post--')) or k in ('stmtexpr', 'unknown'):
+            return False
+    return True
+
+
+def _single_exit(H):
+    """(statements without the final return, returned expression | None) when H's body only returns - if at all - in its last
+    top-level statement and has no labels; else None"""
+    b = H.body
+    if b is None or b.get('k') != 'compound':
+        return None
+    stmts = list(b.get('body', []))
+    ret = None
+    if stmts and stmts[-1].get('k') == 'return':
+        ret = stmts[-1].get('e')
+        stmts = stmts[:-1]
+    for s in stmts:
+        for x in walk_all(s):
+            if x.get('k') in ('return', 'label', 'goto'):
+                return None
+    return stmts, ret
+
+
+def walk_all(n):
+    """every dict node below n (statements and expressions), without relying on the per-kind child tables"""
+    stack = [n]
+    while stack:
+        x = stack.pop()
+        if isinstance(x, dict):
+            yield x
+            for v in x.values():
+                if isinstance(v, (dict, list)):
+                    stack.append(v)
+        elif isinstance(x, list):
+            stack.extend(x)
+
+
+def _subst_inline(node, sub, fresh):
+    """like _subst, and (&x)->f becomes x.f; every copied node gets a fresh id"""
+    if isinstance(node, list):
+        return [_subst_inline(x, sub, fresh) for x in node]
+    if not isinstance(node, dict):
+        return node
+    if node.get('k') == 'ref' and node.get('d') in sub:
+        arg = copy.deepcopy(sub[node['d']])
+        for x in walk_all(arg):
+            if 'id' in x:
+                fresh[0] += 1
+                x['id'] = fresh[0]
+        return arg
+    out = {k: _subst_inline(v, sub, fresh) for k, v in node.items()}
+    if 'id' in out:
+        fresh[0] += 1
+        out['id'] = fresh[0]
+    if out.get('k') == 'mem' and out.get('arrow'):
+        b = strip_casts(out['b'])
+        if b.get('k') == 'un' and b.get('op') == '&':
+            out['b'] = b['e']
+            out['arrow'] = False
+    if out.get('k') == 'un' and out.get('op') == '*':
+        b = strip_casts(out['e'])
+        if b.get('k') == 'un' and b.get('op') == '&':
+            return b['e']
+    return out
+
+
+def inline_private_helpers(u, fname):
+    """view of u in which the calls `h(args);` / `x = h(args);` / `return h(args);` that function `fname` makes to static,
+    single-exit, non-recursive helpers only it calls (once) are replaced by the helper's body; u itself if there is none.
+    The helpers stay in the unit (their own obligations are unchanged); only `fname` is rewritten."""
+    F = u.functions.get(fname)
+    if F is None or F.body is None:
+        return u
+    callers = {}
+    taken = set()
+    for f in u.function_list:
+        if f.body is None:
+            continue
+        callee_ids = set()
+        for c in f.calls():
+            cn = callee_name(c)
+            if cn in u.functions:
+                callers.setdefault(cn, []).append(f.name)
+                callee_ids.add(strip_casts(c['fn']).get('id'))
+        for x in f.nodes():
+            if x.get('k') == 'ref' and x.get('dk') == 'fn' and x.get('id') not in callee_ids:
+                taken.add(x.get('n'))
+    fresh = [max([x.get('id', 0) for x in walk_all(F.body)] + [0]) + 100000]
+    done = []
+
+    def expand(stmt):
+        """the statement list that replaces stmt, or None"""
+        s0 = stmt
+        target = None
+        returned = False
+        e = stmt
+        if e.get('k') == 'return' and 'e' in e:
+            returned = True
+            e = e['e']
+        e = strip_casts(e)
+        if e.get('k') == 'bin' and e.get('op') == '=' and _side_effect_free(e['l']):
+            target = e['l']
+            e = strip_casts(e['r'])
+        if e.get('k') != 'call':
+            return None
+        cn = callee_name(e)
+        H = u.functions.get(cn)
+        if H is None or not H.static or H.body is None or cn in taken or callers.get(cn) != [fname] or cn == fname:
+            return None
+        if any(callee_name(c) == cn for c in H.calls()) or len(e.get('args', [])) != len(H.params):
+            return None
+        if not all(_side_effect_free(a) for a in e['args']):
+            return None
+        se = _single_exit(H)
+        if se is None:
+            return None
+        stmts, ret = se
+        pars = {p['d'] for p in H.params}
+        for x in H.nodes():
+            if x.get('k') == 'bin' and x.get('op') in ASSIGN_OPS and strip_casts(x['l']).get('k') == 'ref' and strip_casts(x['l']).get('d') in pars:
+                return None
+            if x.get('k') == 'un' and x.get('op') in ('&', 'pre++', 'pre--', 'post++', 'post--') and \
+                    strip_casts(x['e']).get('k') == 'ref' and strip_casts(x['e']).get('d') in pars:
+                return None
+        sub = {p['d']: strip_casts(a) for p, a in zip(H.params, e['args'])}
+        body = _subst_inline(stmts, sub, fresh)
+        if ret is not None and (target is not None or returned):
+            rv = _subst_inline(ret, sub, fresh)
+            if returned and target is None:
+                fresh[0] += 1
+                body.append({'k': 'return', 'e': rv, 'id': fresh[0], 'loc': s0.get('loc', [0, 0])})
+            else:
+                fresh[0] += 1
+                asg = {'k': 'bin', 'op': '=', 'l': copy.deepcopy(target), 'r': rv, 'id': fresh[0], 'loc': s0.get('loc', [0, 0]),
+                       'ty': strip_casts(target).get('ty')}
+                for x in walk_all(asg['l']):
+                    if 'id' in x:
+                        fresh[0] += 1
+                        x['id'] = fresh[0]
+                body.append(asg)
+                if returned:
+                    fresh[0] += 1
+                    body.append({'k': 'return', 'e': copy.deepcopy(target), 'id': fresh[0], 'loc': s0.get('loc', [0, 0])})
+        elif ret is not None and not _side_effect_free(ret):
+            return None
+        fresh[0] += 1
+        done.append(cn)
+        return [{'k': 'compound', 'body': body, 'id': fresh[0], 'loc': s0.get('loc', [0, 0]), 'inlined': cn}]
+
+    def rewrite(node):
+        if isinstance(node, list):
+            out = []
+            for x in node:
+                if isinstance(x, dict):
+                    rep = expand(x)
+                    if rep is not None:
+                        out.extend(rewrite(rep))       # helpers of helpers
+                        continue
+                out.append(rewrite(x))
+            return out
+        if isinstance(node, dict):
+            # statement positions that hold a single statement (if/else/loop bodies)
+            out = {}
+            for k, v in node.items():
+                if isinstance(v, dict) and k in ('then', 'else', 'body') and node.get('k') in ('if', 'while', 'do', 'for', 'switch', 'label', 'case', 'default'):
+                    rep = expand(v)
+                    out[k] = rewrite(rep[0]) if rep is not None else rewrite(v)
+                else:
+                    out[k] = rewrite(v)
+            return out
+        return node
+    newbody = rewrite(F.body)
+    if not done:
+        return u
+    view = copy.copy(u)
+    for attr in [a for a in vars(view) if a.startswith('_')]:
+        delattr(view, attr)
+    raw = dict(F.raw)
+    raw['body'] = newbody
+    raw['inlined'] = sorted(set(done))
+    nf = Function(view, raw)
+    view.functions = dict(u.functions)
+    view.functions[fname] = nf
+    view.function_list = [nf if f.name == fname else f for f in u.function_list]
+    view.by_decl = {fn.d: fn for fn in view.function_list}
+    return view
+
+
+_icache = {}
+
+
+def with_inlined(units, unit_name, fname):
+    u = units.get(unit_name)
+    if u is None:
+        return units
+    key = (id(u), fname)
+    if key not in _icache:
+        _icache[key] = (u, inline_private_helpers(u, fname))
+    view = _icache[key][1]
+    if view is u:
+        return units
+    out = dict(units)
+    out[unit_name] = view
+    return out
